@@ -34,10 +34,11 @@ class C16(Spec):
             "with the single-threaded run on JSON documents only (on other texts only crash/hang/race/panic are judged)")
     trusted_base = ["go/factx_access (go/ast, ~700 lines): prints the receiver accesses of every ast.Node method in source order",
                     "Go race detector (-race build of the harness) as the observer of data races in the real code",
-                    "children: the composition is argued from proved facts (creation under the parent's write lock, publication by "
-                    "the release-store, no write after publication, no race on the memory behind p; the parser builds only raw "
-                    "children with their own mutex and no lazy node under noLazy=loadOnce=true) - the multi-node system itself is "
-                    "not a Lean object: each child is another instance of the one-node system",
+                    "children: the parent+children object is a Lean state (Model/RWMulti.lean: one one-node instance per node, any tree "
+                    "shape and depth, a thread enters a child only through a child-slot read after the parent's release-store); the "
+                    "composite theorems project every node to the one-node system and prove that the creation writes happen-before "
+                    "every step on a child; that real readers obtain child pointers only through such reads is the regenerated access "
+                    "fact (accesses of class c), the parser facts say children are raw nodes with their own mutex, never lazy",
                     "below 'atomic step / critical section' the Go memory model is taken as specified (sync.RWMutex, sync/atomic)"]
     assumptions = ["statements cover texts the node's own parser accepts and texts it rejects (pf); the pinned snapshot's two "
                    "defects are kept as negation theorems on the pinned event lists (regression section)",
